@@ -586,6 +586,21 @@ std::uint32_t SleepSig() {
   return h;
 }
 
+// Who is in the run queue: asked at every decision, because the decisions about a spurious failure, a waiter or a
+// coin do not carry a menu of fibers of their own.
+std::uint32_t RunnableSig() {
+  std::uint32_t h = 0x9e3779b1u;
+  if (g.sched == nullptr) {
+    return h;
+  }
+  yf::FiberBase* q[kMaxFibers];
+  const int n = Collect(&g.sched->_queue, true, q, kMaxFibers);
+  for (int i = 0; i < n; ++i) {
+    h = (h ^ static_cast<std::uint32_t>(RelId(q[i]) + 1)) * 16777619u;
+  }
+  return h;
+}
+
 int ObjIndex(const void* obj) {
   if (obj == nullptr) {
     return -1;
@@ -744,11 +759,13 @@ void PorReset() {
 // The key of a state at a decision: the fingerprint of what was executed, who decides, and the menu
 // (sig hashes the ids of the fibers that can run, n also counts a timer alternative).  The menu is
 // part of the key because a fiber's exit and a fiber blocking are not events: two prefixes with the
-// same events can differ in whether a fiber has already left / is already parked.
+// same events can differ in whether a fiber has already left / is already parked.  The run queue is
+// hashed in at every kind of decision (RunnableSig), not only where the menu is a menu of fibers.
 std::uint64_t PorKey(int cur, DKind kind, std::uint32_t sig, int n) {
   return Mix64(gPor.fp ^ (static_cast<std::uint64_t>(cur + 2) << 8) ^ static_cast<std::uint64_t>(kind) ^
                (static_cast<std::uint64_t>(sig) << 24) ^ (static_cast<std::uint64_t>(n) << 16) ^
-               (static_cast<std::uint64_t>(g.bounds.T > 0 ? SleepSig() : 0) << 3));
+               (static_cast<std::uint64_t>(g.bounds.T > 0 ? SleepSig() : 0) << 3) ^
+               (static_cast<std::uint64_t>(RunnableSig()) << 29));
 }
 
 // Called when a NEW decision node is about to be created.  Returns true if the state was already
